@@ -286,7 +286,8 @@ def run():
     ck.coverage["head_cfg"] = cfg
     fixed_by_shape = {}
     if cfg:
-        for fid, flag, rel in ((F2, "that_rejected", "prqlc/prqlc/src/semantic/lowering.rs"), (F3, "parent_walk", "prqlc/prqlc/src/semantic/resolver/names.rs")):
+        for fid, flag, rel in ((F2, "that_rejected", "prqlc/prqlc/src/semantic/lowering.rs"), (F3, "parent_walk", "prqlc/prqlc/src/semantic/resolver/names.rs"),
+                               (F4, "std_call_rejected", "prqlc/prqlc/src/semantic/resolver/types.rs"), (F7, "dead_case_checked", "prqlc/prqlc/src/semantic/resolver/static_eval.rs")):
             if cfg[flag]:
                 try:
                     import subprocess
@@ -334,7 +335,7 @@ def run():
                     ident = (["this"], d) if sk == "join-cond" else ([], d)
                     that = c10_gen.Frame([c10_gen.Input("w", [], True, c10_gen.TABLES["w"])]) if sk == "join-cond" else None
                     cases.append({"stream": "edit-a-dropped-column", "src": p.text(upto=k, extra=[c10_gen.SITES[sk] % d]), "kind": "edit", "pi": pi,
-                                  "coq": "lower_ref head_cfg %s %s" % (coq_scope(p, fr, that), coq_ident(ident)),
+                                  "coq": "%s head_cfg %s %s" % ("lower_ref_dead" if sk in c10_gen.DEAD_SITES else "lower_ref", coq_scope(p, fr, that), coq_ident(ident)),
                                   "site": sk, "name": d, "frame": fr.describe()})
             # (b) bare name known to two inputs
             amb = [n for n in dict.fromkeys(fr.all_cols()) if fr.count(n) >= 2]
@@ -465,8 +466,9 @@ def run():
         if not g.chance(0.35):
             continue
         callx = g.pick(STD_SCALAR_CALLS)
-        variants = [("from", p.text(source=callx), "[AScalar]"), ("join", p.text(extra=["join %s true" % callx]), "[AScalar; AScalar; ARel]"),
-                    ("append", p.text(extra=["append %s" % callx]), "[AScalar; ARel]")]
+        k_ = "seen head_cfg SStdCall"
+        variants = [("from", p.text(source=callx), "[%s]" % k_), ("join", p.text(extra=["join %s true" % callx]), "[%s; AScalar; ARel]" % k_),
+                    ("append", p.text(extra=["append %s" % callx]), "[%s; ARel]" % k_)]
         fn, src, args = g.pick(variants)
         cases.append({"stream": "edit-e-scalar-for-relation", "src": src, "kind": "call", "pi": pi,
                       "coq": "call [%s] %s []" % (cs(fn), args), "site": fn + ":std-call", "name": callx, "what": "std-call"})
@@ -554,7 +556,8 @@ def run():
             if sk == "join-cond" and (what == "bare-that" or "w" in p.used_tables or len(fr.inputs) >= 3):
                 continue
             cases.append({"stream": "edit-f-module-or-relation-as-value", "src": decls + "\n" + p.text(upto=k, extra=[site % txt]), "kind": "edit", "pi": pi,
-                          "coq": "lower_ref_in head_cfg %s %s %s" % ("true" if interp else "false", coq_scope(p2, fr, that), coq_ident(ident)),
+                          "coq": ("lower_ref_dead head_cfg %s %s" % (coq_scope(p2, fr, that), coq_ident(ident))) if sk in c10_gen.DEAD_SITES else
+                                 "lower_ref_in head_cfg %s %s %s" % ("true" if interp else "false", coq_scope(p2, fr, that), coq_ident(ident)),
                           "site": sk, "name": txt, "what": what, "interp": interp, "frame": fr.describe()})
 
     # (g) declarations inside modules: a name in a relation (or value) position of `let q = (..)` inside module m / m.inner,
@@ -675,14 +678,16 @@ def run():
         if case.get("impl") != "ok":
             return None
         # C10-F4: the relation argument is a CALL of a std function (a scalar); it compiles to `FROM ABS(3)`
-        if case.get("what") == "std-call" and str(case.get("site", "")).endswith(":std-call") and "ENotARelation" in str(case.get("model")):
+        # (the faithful model -- seen head_cfg SStdCall = ARel without the repair -- says Applied)
+        if case.get("what") == "std-call" and str(case.get("site", "")).endswith(":std-call") and str(case.get("model")) == "Applied" and not (cfg and cfg["std_call_rejected"]):
             return F4
         # C10-F5: the step before the site is a select keeping `x.n, y.n`; the model still sees two candidates
         if case.get("what") == "dup-select" and case.get("model_kind") == "OErr:EAmbiguous":
             return F5
         # C10-F7: a module / relation name / `that` as the value of a case branch that static evaluation removes: the a131b2a /
         # 006e33c tests sit in lower_expr, which never sees the branch
-        if case.get("stream") in ("edit-f-module-or-relation-as-value", "edit-a-dropped-column") and case.get("site") in c10_gen.DEAD_SITES and case.get("model_kind") == "OErr:ENotAValue":
+        if case.get("stream") in ("edit-f-module-or-relation-as-value", "edit-a-dropped-column") and case.get("site") in c10_gen.DEAD_SITES and case.get("model_kind") == "ODropped" \
+                and not (cfg and cfg["dead_case_checked"]):
             return F7
         # C10-F6: the name was excluded by the immediately preceding `select !{..}` from a wildcard input; the (faithful) model infers it
         if case.get("what") == "excluded-column" and case.get("model_kind") == "OInferredColumn":
@@ -804,6 +809,9 @@ def run():
             ck.stat(st, "interpolated-relation-name:" + c["impl"])
             if c["impl"] != "ok":
                 ck.violation("a relation name interpolated into an s-string should be spliced in (model: OPassthrough), got %s" % c["impl"], dict(rep, answer=str(a)[:300]))
+            continue
+        if mk == "ODropped" and c["impl"] != "ok":
+            ck.violation("the model says the dead case branch is dropped unchecked, the implementation rejects it (%s)" % c["impl"], dict(rep, answer=str(a)[:300]))
             continue
         # edits: the implementation must reject
         want = None
